@@ -148,7 +148,7 @@ _W = {}     # worker globals: programs, queries
 
 def run_path(query, prefix, seed):
     prog = _W['progs'][query.prog]
-    ctx = Ctx(prefix)
+    ctx = Ctx(prefix, smtlog=_W.get('cross'))
     I = Interp(prog, ctx)
     L = Leaf(I, ctx, query)
     L.progs = _W['progs']
@@ -193,6 +193,7 @@ def work(item):
     """explore (part of) the subtree below `prefix`; returns aggregate + leftover prefixes"""
     qi, prefix, budget, seed, replay_cap = item
     query = _W['queries'][qi]
+    _W['cross'] = {'quota': _W.get('cross_quota', 0)}
     stack = [prefix]
     agg = {'qi': qi, 'paths': 0, 'outcomes': {}, 'violations': [], 'replays': [], 'unsupported': [], 'checks': 0,
            'fns': set(), 'models': set(), 'steps': 0, 'decisions': 0, 'tags': {}, 'errors': []}
@@ -231,6 +232,9 @@ def work(item):
     agg['solver_checks'] = STATS['checks'] - c0
     agg['solver_s'] = STATS['solver_s'] - s0
     agg['leftover'] = stack
+    agg['cross_n'] = _W['cross'].get('n', 0)
+    agg['cross_s'] = _W['cross'].get('s', 0.0)
+    agg['cross_problems'] = _W['cross'].get('problems', [])
     return agg
 
 
@@ -238,15 +242,16 @@ def work(item):
 # master side
 
 
-def explore(progs, queries, workers=None, seed=0, budget=150, replay_cap=40, time_cap=None, log=None):
+def explore(progs, queries, workers=None, seed=0, budget=150, replay_cap=40, time_cap=None, log=None, cross_quota=0):
     """run all queries to completion; returns per-query aggregates"""
     workers = workers or min(16, os.cpu_count() or 1)
     _W['progs'], _W['queries'] = progs, queries
+    _W['cross_quota'] = cross_quota
     # load unicode tables before forking
     models.unicode_tables()
     results = [{'name': q.name, 'bound': q.bound, 'paths': 0, 'outcomes': {}, 'violations': [], 'replays': [],
                 'unsupported': [], 'checks': 0, 'fns': set(), 'models': set(), 'steps': 0, 'decisions': 0,
-                'tags': {}, 'errors': [], 'solver_checks': 0, 'solver_s': 0.0, 'cpu_s': 0.0, 'complete': True}
+                'tags': {}, 'errors': [], 'solver_checks': 0, 'solver_s': 0.0, 'cpu_s': 0.0, 'complete': True, 'cross_n': 0, 'cross_s': 0.0, 'cross_problems': []}
                for q in queries]
     t0 = time.time()
     ctxm = mp.get_context('fork')
@@ -272,6 +277,9 @@ def explore(progs, queries, workers=None, seed=0, budget=150, replay_cap=40, tim
         r['fns'] |= agg['fns']
         r['models'] |= agg['models']
         r['errors'].extend(agg['errors'])
+        r['cross_n'] += agg['cross_n']
+        r['cross_s'] += agg['cross_s']
+        r['cross_problems'].extend(agg['cross_problems'][:3])
         for p in agg['leftover']:
             todo.append((agg['qi'], p, budget, seed, replay_cap))
 
